@@ -35,6 +35,26 @@ func (s *c18sink) Write(p []byte) (int, error) {
 	s.mu.Unlock()
 	return len(p), nil
 }
+// c18plain: like c18sink but NOT an io.Closer.
+type c18plain struct {
+	mu sync.Mutex
+	ws [][]byte
+}
+
+func (s *c18plain) Write(p []byte) (int, error) {
+	s.mu.Lock()
+	s.ws = append(s.ws, append([]byte(nil), p...))
+	s.mu.Unlock()
+	return len(p), nil
+}
+func (s *c18plain) take() [][]byte {
+	s.mu.Lock()
+	defer s.mu.Unlock()
+	w := s.ws
+	s.ws = nil
+	return w
+}
+
 func (s *c18sink) Close() error { return nil } // an io.Closer: the logger then writes no colour escapes to stdout
 func (s *c18sink) take() [][]byte {
 	s.mu.Lock()
@@ -335,6 +355,32 @@ func c18(c *h.Ctx) {
 		one(other, sink, "b-reopened", "Switch(b); Close(); Switch(b); log")
 		ol.Switch(sink)
 		one(sink, other, "back", "Switch(b); Switch(a); log")
+	}
+
+	// 3d. a writer that is NOT an io.Closer (a bytes.Buffer, a network connection wrapper): every call still makes
+	// exactly one write to it, a whole line that begins with the level label — nothing else (no colour escapes, which
+	// are for the console) ever reaches the application's writer
+	{
+		plain := &c18plain{}
+		ol.Close() // no closer is installed any more: the next writer is the only sink the library knows
+		ol.Switch(plain)
+		ol.T(nil, "t-line")
+		ol.W(ctxs[1].v, "w-line")
+		ol.Wf(nil, "%v", "wf-line")
+		ol.E(c18obj(3), "e-line")
+		ol.Ef(ctxs[1].v, "%v", "ef-line")
+		ws := plain.take()
+		okAll := len(ws) == 5
+		for _, w := range ws {
+			okAll = okAll && c18lineRe.Match(w) && bytes.Count(w, []byte("\n")) == 1 && w[len(w)-1] == '\n'
+		}
+		var shown []string
+		for _, w := range ws {
+			shown = append(shown, h.Trunc(strings.TrimSpace(string(w)), 40))
+		}
+		c.Hold(okAll, "one_line.one_write", "logger to a writer without Close(): T, W, Wf, E, Ef", fmt.Sprintf("%d writes: %q", len(ws), shown), "5 writes, each one whole line starting with its level label")
+		c.Case("line/plain-writer", "non-closer", true)
+		ol.Switch(sink)
 	}
 
 	// F20 regression (fixed finding): the documentation's own example, an object with Cid() = 100
